@@ -65,6 +65,15 @@ class SpecEval(object):
         return v
 
     def ev(self, e):
+        # reads made while evaluating a contract expression are not reads of the program: no definedness
+        # (init-read) obligations are generated for them
+        self.ex.in_spec = getattr(self.ex, 'in_spec', 0) + 1
+        try:
+            return self.ev_(e)
+        finally:
+            self.ex.in_spec -= 1
+
+    def ev_(self, e):
         k = e[0]
         ex = self.ex
         if k == 'num':
